@@ -34,6 +34,7 @@ Record event := mkEvent {
   e_data : N;        (* commit: new group-data version (0 = unchanged) *)
   e_msg : N;         (* application message: rumor id number *)
   e_removes : list N;(* commit: members removed *)
+  e_refs : list N;   (* commit: pending proposals (event numbers) it commits by reference *)
   e_bad : N }.       (* hostile: 0 wrong kind/timestamp/h-tag (refused before the group is looked up, group extractable),
                                   1 the same but no group extractable, 2 unknown group, 3 undecryptable content *)
 
@@ -151,7 +152,7 @@ Definition advance (k : core) (cm : N * N * list N) (save : bool) (evicted : boo
   let '(id, data, _) := cm in
   let k1 := mkCore (id + 1) (k_epoch k + 1)
                    (if evicted then k_rec_epoch k else k_epoch k + 1)
-                   (if evicted then false else k_active k) None [] (k_secrets k) (push_past k)
+                   (if evicted then false else k_active k) None (if evicted then k_props k else []) (k_secrets k) (push_past k)
                    (if evicted then k_data k else if data =? 0 then k_data k else data) (k_last k) (k_seen k) in
   if save && negb evicted then ensure_secret k1 else k1.
 
@@ -184,11 +185,12 @@ Fixpoint process (fuel : nat) (c : client) (e : event) : client * rk :=
   (* step 2: decrypt_message *)
   if (e_kind e =? 3) && (e_bad e =? 2) then (record_failure c (e_id e) false None, RErr) else
   let rec_epoch := k_rec_epoch (kc c) in
+  (* an evicted member's MLS group can no longer export a secret: decrypt_message fails *)
+  if negb (k_active (kc c)) then (record_failure c (e_id e) true None, RErr) else
   let c := set_core c (ensure_secret (kc c)) in
   if (e_kind e =? 3) || negb (outer_opens (kc c) (e_state e)) then (record_failure c (e_id e) true None, RErr) else
   let k := kc c in
   (* step 3: OpenMLS process_message *)
-  if negb (k_active k) then fail_unprocessable c e rec_epoch else
   let wrong_epoch := if e_kind e =? 1 then k_epoch k <? e_epoch e else negb (e_epoch e =? k_epoch k) in
   if wrong_epoch then
     (* error_handling.rs: ProcessMessageWrongEpoch *)
@@ -234,12 +236,21 @@ Fixpoint process (fuel : nat) (c : client) (e : event) : client * rk :=
     let c2 := put_dedup c1 (e_id e) PS_PROCESSED (Some (k_epoch k)) (Some (e_msg e)) in
     (set_core c2 (upd_last (kc c2) (e_msg e) (e_msg e)), RApp)
   else if e_kind e =? 2 then
-    (* leave proposal: auto-commit by an admin receiver, else stored pending *)
-    let k0 := with_props k (k_props k ++ [e_id e]) in
+    (* leave proposal: auto-commit by an admin receiver, else stored pending; a proposal whose ratchet key was already
+       consumed (re-delivery in the same MLS state) cannot be decrypted again *)
+    if existsb (N.eqb (100000 + e_id e)) (k_seen k) then fail_unprocessable c e rec_epoch else
+    let k0 := with_seen (with_props k (k_props k ++ [e_id e])) ((100000 + e_id e) :: k_seen k) in
+    if is_admin c && (match k_pending k with Some _ => true | None => false end) then
+      (* auto_commit_proposal stores the proposal, then commit_to_pending_proposals fails because a commit is already
+         pending: the event is reported Unprocessable although the proposal store has changed *)
+      fail_unprocessable (set_core c k0) e rec_epoch
+    else
     let k1 := if is_admin c then with_pending k0 (Some (1000 + e_id e * 8 + me c, 0, [e_author e])) else k0 in
     (put_dedup (set_core c k1) (e_id e) PS_PROCESSED (Some (k_epoch k)) None, if is_admin c then RAuto else RPending)
   else
-    (* commit from another member at the current epoch *)
+    (* commit from another member at the current epoch: OpenMLS needs every proposal committed by reference in the
+       receiver's own proposal store *)
+    if negb (forallb (fun p => existsb (N.eqb p) (k_props k)) (e_refs e)) then fail_unprocessable c e rec_epoch else
     if negb (e_auth e) then (record_failure c (e_id e) true (Some rec_epoch), RErr)
     else apply_commit c e (commit_of e).
 
@@ -266,6 +277,7 @@ Definition sent (c : client) (e : event) : client :=
   set_core c2 (upd_last (kc c2) (e_msg e) (e_msg e)).
 
 Definition leave_created (c : client) (e : event) : client :=
-  put_dedup (set_core c (ensure_secret (kc c))) (e_id e) PS_COMMIT (Some (k_epoch (kc c))) None.
+  let k := ensure_secret (kc c) in
+  put_dedup (set_core c (with_props k (k_props k ++ [e_id e]))) (e_id e) PS_COMMIT (Some (k_epoch k)) None.
 
 Definition deliver (c : client) (e : event) : client * rk := process 2 c e.
